@@ -5,6 +5,8 @@ package plan
 import (
 	"encoding/json"
 	"hash/fnv"
+	"net"
+	"strings"
 
 	"tqsim/model"
 	"tqsim/world"
@@ -42,6 +44,9 @@ type Scenario struct {
 	Ctl     []Ctl        `json:"ctl,omitempty"`
 	// Stall allows the scheduler to advance the clock while other events are enabled.
 	Stall bool `json:"stall,omitempty"`
+	// Proxy: the server runs with SetUseProxy(true): every packet is preceded by an
+	// HA-proxy ASCII line (ClientSpec.Proxy makes the model client send them)
+	Proxy bool `json:"proxy,omitempty"`
 	// Sibling: a second Server value in the same process holds this many idle connections
 	// open for the whole run (C20: the exported gauges are shared by all servers of a process)
 	Sibling int `json:"sibling,omitempty"`
@@ -76,6 +81,7 @@ type ClientSpec struct {
 	WFault    []world.WriteFault `json:"wfault,omitempty"`
 	Real      bool               `json:"real,omitempty"`      // ops run through tacquito.Client
 	ReusePkt  bool               `json:"reuse_pkt,omitempty"` // Real: the caller refills one packet object for every request
+	Proxy     bool               `json:"proxy,omitempty"`     // every packet is preceded by an HA-proxy ASCII line
 	Scripted  bool               `json:"scripted,omitempty"`  // bytes reach the server only through this client's pace ops (segmentation by script, not by tape)
 	// SrvScript: for Real clients talking to a model server: replies the model server
 	// writes, one list per request received.
@@ -487,4 +493,21 @@ func (b BodySpec) Same(o BodySpec) bool {
 		}
 	}
 	return true
+}
+
+// ProxyLine is the HA-proxy ASCII line a proxying load balancer puts before every packet
+// of this client (proxy-protocol v1 text form, NUL terminated as tacquito expects it).
+func (cs *ClientSpec) ProxyLine() []byte {
+	if !cs.Proxy {
+		return nil
+	}
+	host, port := "198.51.100.7", "40000"
+	if h, p, err := net.SplitHostPort(cs.Addr); err == nil {
+		host, port = h, p
+	}
+	fam := "TCP4"
+	if strings.Contains(host, ":") {
+		fam = "TCP6"
+	}
+	return []byte("PROXY " + fam + " " + host + " 192.0.2.1 " + port + " 49\r\n\x00")
 }
